@@ -288,7 +288,7 @@ def _fraction(ctx, mir) -> None:
         return
     f = mir.fn("parse_time")
     names = f.names()
-    n_acc = n_pad = 0
+    n_acc = n_pad = n_drain = 0
     for scc in f.sccs():
         stm = [s for b in scc for s in f.blocks[b].stmts]
         bound6 = any(s.op == "Lt" and s.args[1] == "const 6_u8" for s in stm)
@@ -301,6 +301,9 @@ def _fraction(ctx, mir) -> None:
             else:
                 ctx.ob("FRACTION", "rs:parse_time/unbounded-loop", False,
                        "a loop accumulates fraction digits into microsecond without the `i < 6` bound", "rust/src/parsing.rs")
+        elif not pad and any(s.op == "call" and "is_ascii_digit" in s.callee for s in stm) \
+                and any(s.op == "call" and re.search(r"\binc\b", s.callee) for s in stm):
+            n_drain += 1          # `while self.current.is_ascii_digit() { self.inc(); }`: digits beyond the sixth are skipped
         elif pad:
             if bound6:
                 n_pad += 1
@@ -310,6 +313,9 @@ def _fraction(ctx, mir) -> None:
     ctx.ob("FRACTION", "rs:parse_time/accumulate<=6", n_acc >= 1 and n_acc == n_pad,
            f"{n_acc} digit-accumulation loops and {n_pad} zero-padding loops bounded by i < 6; each fraction site needs both",
            "rust/src/parsing.rs")
+    ctx.ob("FRACTION", "rs:parse_time/extra-digits", n_drain == n_acc,
+           f"{n_drain} loops skip the digits after the sixth for {n_acc} fraction sites (basic and extended time): a 7-9 digit "
+           f"fraction must be truncated, not left in the input for the offset parser to reject", "rust/src/parsing.rs")
     _ = names
 
 
@@ -427,6 +433,44 @@ def _wrap_sites(ctx) -> None:
             ctx.ob("BACKEND.names", "parsing/try-except-ImportError", prim == fb, f"{sorted(prim)} vs {sorted(fb)}", gm.loc(tr))
 
 
+def _separators(ctx, mir) -> None:
+    """the date/time boundary is 'T' or a space ({T, space} separators): wherever the compiled parser tests the current
+    character against one of them to decide whether the date part is over, it must test the other one in the same
+    condition (same comparison, shared branch target)"""
+    rel = "rust/src/parsing.rs"
+    n = 0
+    for name, g in sorted(mir.fns.items()):
+        if "parsing" not in name or "python" in name:
+            continue
+        short = name.rsplit("::", 1)[-1]
+        sites = {}
+        for b, s in g.all_stmts():
+            if s.op in ("Eq", "Ne") and len(s.args) == 2 and s.args[1] in ("const 'T'", "const ' '"):
+                sites[b.idx] = (s.op, s.args[1][7], b)
+        if not sites:
+            continue
+        first = min(sites)
+        for bi, (op, ch, b) in sorted(sites.items()):
+            if short == "parse_datetime" and bi == first and op == "Eq" and ch == "T":
+                # exception: a leading 'T' is the *time designator* of a time-only string ("T10:20"); a space is not one
+                ctx.ob("SEPARATOR.pair", f"rs:{short}/bb{bi}", True, "leading time designator 'T' (no space form exists)", rel, nontrivial=False)
+                continue
+            other = " " if ch == "T" else "T"
+            tg = set(b.switch[1].values()) if b.switch else set(b.succs)
+            mate = None
+            for bj, (op2, ch2, b2) in sites.items():
+                if bj == bi or ch2 != other or op2 != op:
+                    continue
+                tg2 = set(b2.switch[1].values()) if b2.switch else set(b2.succs)
+                if (bj in b.succs or bi in b2.succs) and (tg & tg2):
+                    mate = bj
+            n += 1
+            ctx.ob("SEPARATOR.pair", f"rs:{short}/'{ch}'@{sorted(sites).index(bi)}", mate is not None,
+                   f"`self.current {'==' if op == 'Eq' else '!='} '{ch}'` is tested without the same test for '{other}' in the same "
+                   f"condition: one of the two date/time separators is then treated as part of the date", rel)
+    ctx.count("separator_tests", n)
+
+
 def run(ctx) -> None:
     ctx.explanation = EXPLANATION
     _table_is_cumulative(ctx)
@@ -442,6 +486,8 @@ def run(ctx) -> None:
     if mir is not None:
         _rs_forward(ctx, mir, sf)
         _rs_backward(ctx, mir)
+        _separators(ctx, mir)
+        ctx.expect_min("SEPARATOR.pair", 10)
     _week(ctx, mir, sf)
     _fraction(ctx, mir)
     _offset(ctx, mir, sf)
